@@ -52,9 +52,9 @@ TRUSTED = ["harness/api_xpath.c, harness/wb_xpath.c",
 
 HARNESS = "api_xpath"
 COMP = "xpath"
-ALL = 32767
+ALL = 65535
 # Quirks bit -> finding
-QBITS = {0: "F38", 1: "F39", 2: "F40", 3: "F41", 4: "F250", 5: "F251", 6: "F252", 7: "F253", 8: "F254", 9: "F255", 10: "F256", 11: "F261", 12: "F264", 13: "F355", 14: "F354"}
+QBITS = {0: "F38", 1: "F39", 2: "F40", 3: "F41", 4: "F250", 5: "F251", 6: "F252", 7: "F253", 8: "F254", 9: "F255", 10: "F256", 11: "F261", 12: "F264", 13: "F355", 14: "F354", 15: "F353"}
 
 
 def classify(component, what, case):
@@ -107,13 +107,31 @@ def schema_line(i):
     return "%s %s schema %s %s" % (i, COMP, hexs(X.YANG_A), hexs(X.YANG_B))
 
 
+_REPAIRS = None
+
+
+def source_repairs():
+    """{finding: the source tree already has its repair}, read off xpath.c (tools/extractors/xpath.py: yang_fn_repairs) — the switch of
+    such a finding is off even while its status is still `known`, so the check is right with and without the candidate fix."""
+    global _REPAIRS
+    if _REPAIRS is None:
+        import importlib.util, os
+        here = os.path.dirname(os.path.dirname(os.path.abspath(__file__)))
+        spec = importlib.util.spec_from_file_location("extractors_xpath", os.path.join(here, "extractors", "xpath.py"))
+        mod = importlib.util.module_from_spec(spec)
+        spec.loader.exec_module(mod)
+        _REPAIRS = mod.yang_fn_repairs()
+    return _REPAIRS
+
+
 def live_mask(cx):
     """switches of the engine that stand for a deviation still present in the implementation: findings with status `known`.
     A repaired finding (status `fixed`) turns its switch off, so the engine demands the XPath 1.0 behaviour there again."""
     m = 0
+    rep = source_repairs()
     for bit, fid in QBITS.items():
         f = cx.findings.get(fid)
-        if f is not None and f.get("status") == "known":
+        if f is not None and f.get("status") == "known" and not rep.get(fid, False):
             m |= 1 << bit
     return m
 
@@ -423,7 +441,11 @@ def witnesses(cx):
     for (fid, xml, c, e) in X.CRASH_WITNESSES:
         lines = [schema_line("s"), "t %s load x %s" % (COMP, hexs(xml)), "w %s eval %d %s -" % (COMP, c, hexs(X.render(e)))]
         cx.count(("witness", fid, X.prefix(e)), True, "witness:" + fid)
-        cx.run_impl(HARNESS, lines, component=COMP)      # a sanitizer abort is recorded as a failure and classified by its report
+        ri = cx.run_impl(HARNESS, lines, component=COMP)      # a sanitizer abort is recorded as a failure and classified by its report
+        if source_repairs().get(fid) and ri.get("w") is not None and ri.get("w")[:2] != ["err", "Valid"]:
+            # repaired source (fixes/F353.diff): a clean LY_EVALID is what the engine with the switch off says (Eval.derivedFn)
+            cx.fail(COMP, "repaired xpath_derived_: unprefixed identity without a module must be refused with LY_EVALID",
+                    {"witness_repaired": fid, "expr": X.render(e), "impl": ri.get("w")})
 
 
 # ----------------------------------------------------------------------------------------------------------------------
